@@ -777,7 +777,8 @@ def setconst_case(draw):
   if model['actuators']:
     kinds += ['actuator_gear'] * 2
   kinds += ['body_mass_inertia', 'body_ipos_iquat'] * 2
-  kind = d(st.sampled_from(kinds))
+  rot = d(st.integers(0, 2 ** 31 - 1))      # rotation defeats Hypothesis' preference for the first list entries
+  kind = kinds[(d(st.integers(0, len(kinds) - 1)) + rot) % len(kinds)]
   edited = gr._copy(model)
   eb = gr.collect(edited, 'body')
   ej = gr.collect(edited, 'joint')
@@ -837,6 +838,16 @@ def setconst_case(draw):
 #    mj_setLengthRange is a separate API function;
 #  - names/paths/signature/buffer bookkeeping.
 SETCONST_SKIP = {'actuator_lengthrange', 'signature'}
+# field -> (edit kinds, fingerprint, explanation): reported as known finding only if mj_setConst left the array bit-for-bit
+# untouched; any other difference in these fields is an ordinary violation
+SETCONST_KNOWN = {
+    'bvh_aabb': (('body_ipos_iquat',), 'setconst-bvh-stale-after-ipos-edit',
+                 'Body BVH boxes are expressed in the inertial frame; with the stale boxes the midphase drops contacts '
+                 '(observed: 3 contacts -> 0 after moving ipos by 3 m).'),
+    'tendon_lengthspring': (('qpos0', 'qpos_spring'), 'setconst-tendon-lengthspring-stale',
+                            'Tendons with automatic springlength (-1) are resolved once at compile time; the "auto" '
+                            'information is lost, so setSpring() never recomputes them.'),
+}
 
 
 def check_setconst(ck, lib, case):
@@ -850,20 +861,32 @@ def check_setconst(ck, lib, case):
     return
   fields = SETCONST_EDITS[case['kind']]
   changed = False
+  # the mjData handed to mj_setConst is a used one (arbitrary state), as in a running simulation
+  d = lib.make_data(m1)
+  set_state(lib, m1, Index(lib, m1), d, case['seed'])
+  lib.mj_forward(m1, d)
   for f in fields:
     a, b = getattr(m1, f), getattr(m2, f)
     if not np.array_equal(a, b):
       changed = True
     a[...] = b
-  d = lib.make_data(m1)
+  before = {f: getattr(m1, f).copy() for f in SETCONST_KNOWN}
   lib.mj_setConst(m1, d)            # MjError here = violation (documented-safe edit rejected)
-  skip = set(SETCONST_SKIP)
-  if case['kind'] == 'qpos_spring' and case['auto_springlength']:
-    skip.add('tendon_lengthspring')
-  diffs = modelcmp.compare(lib, m1, m2, mode='exact', skip=skip)
   labels = ['setconst:' + case['kind'], 'setconst:changed' if changed else 'setconst:noop']
+  diffs = modelcmp.compare(lib, m1, m2, mode='exact', skip=SETCONST_SKIP)
+  # known findings: a derived array that mj_setConst leaves completely untouched although the recompile changes it
+  for df in list(diffs):
+    kn = SETCONST_KNOWN.get(df.field)
+    if kn and case['kind'] in kn[0] and np.array_equal(getattr(m1, df.field), before[df.field]):
+      diffs.remove(df)
+      labels.append('setconst:%s-stale(known-finding)' % df.field)
+      ck.violation('after editing %s (documented "Safe with mj_setConst", programming/simulation.rst) and calling '
+                   'mj_setConst, %s keeps its old value while recompiling the edited XML changes it (%s). %s' % (
+                       '/'.join(fields), df.field, df.detail, kn[2]),
+                   dict(check='setconst', case=case), bucket='setconst-' + df.field, fingerprint=kn[1])
   if diffs:
     # not bit-identical: still equal within the derived tolerance? (then it is only a different rounding path)
+    skip = SETCONST_SKIP | set(k for k in SETCONST_KNOWN if any(l.startswith('setconst:' + k) for l in labels))
     loose = modelcmp.compare(lib, m1, m2, mode='rel', rtol=TOL_DERIVED, atol=TOL_DERIVED, skip=skip)
     if loose:
       fail('mj_setConst after editing %s of %r differs from recompiling the edited XML: %s' % (
@@ -878,6 +901,75 @@ def check_setconst(ck, lib, case):
   ck.case(nontrivial=changed, key=(case['before'], case['after']), labels=labels,
           sample=dict(setconst=case['kind'], target=case['target'], after=case['after'][:600]) if changed and
           not any('setconst' in str(x) for x in ck.samples) else None)
+
+
+# ------------------------------------------------------------------------------------------------ ASan probe (thorough)
+
+ASAN_PROBE = r"""
+import sys
+sys.path.insert(0, %r)
+from vf import mj
+lib = mj.load('asan')
+which = sys.argv[1]
+if which == 'overflow':
+  xml = ('<mujoco><default><joint type="ball"/></default><worldbody><body><joint type="hinge"/><geom size=".1"/>'
+         '<replicate count="2" offset="1 0 0"><geom name="g" size=".1"/></replicate></body></worldbody></mujoco>')
+  s = lib.parse_xml(xml)
+  m = lib.compile_spec(s)
+  lib.mj_deleteSpec(s)
+else:
+  parent = ('<mujoco><compiler fusestatic="true"/><worldbody><body name="b1" pos="0 0 1"><joint name="j"/><geom size=".1"/>'
+            '<frame name="F"/></body></worldbody></mujoco>')
+  child = '<mujoco model="c"><worldbody><body name="b4" pos="0.3 0 0"><geom name="g4" size=".1"/></body></worldbody></mujoco>'
+  s = lib.parse_xml(parent)
+  sc = lib.parse_xml(child)
+  fr = lib.mjs_findFrame(s, 'F')
+  bd = lib.mjs_findBody(sc, 'b4')
+  lib.mjs_attach(mj.Struct(lib, 'mjsFrame', fr).element, mj.Struct(lib, 'mjsBody', bd).element, 'x_', '')
+  m = lib.compile_spec(s)
+  lib.mj_deleteSpec(s)
+  lib.mj_deleteSpec(sc)
+print('PROBE-CLEAN')
+"""
+
+
+def asan_probe(ck):
+  """The two memory-safety findings cannot be observed reliably in-process with the rel build; run their minimal
+  reproducers in a subprocess against the asan variant.  A time budget never produces a violation."""
+  import os
+  import subprocess
+  import sys
+  from vf import build as vb
+  from vf.runner import VERIF
+  env = dict(os.environ, LD_PRELOAD=vb.ASAN_RT, ASAN_OPTIONS='detect_leaks=0:abort_on_error=0:exitcode=99',
+             PYTHONPATH=VERIF)
+  for which, fp, pat, what in (
+      ('overflow', 'attach-default-joint-type-heap-overflow', 'ComputeReference',
+       'default class joint type="ball" + element type="hinge" + <replicate>: heap-buffer-overflow in '
+       'mjCModel::ComputeReference (qpos0 sized from spec.type, written according to the class type)'),
+      ('uaf', 'attach-shallow-fusestatic-use-after-free', 'FuseStatic',
+       'mjs_attach by reference of a static body + fusestatic: FuseStatic deletes a body still owned by the child spec; '
+       'heap-use-after-free in mjCBody::~mjCBody on mj_deleteSpec(child)')):
+    try:
+      p = subprocess.run([sys.executable, '-c', ASAN_PROBE % VERIF, which], capture_output=True, text=True, env=env,
+                         timeout=float(os.environ.get('VERIF_ASAN_PROBE_S', '900')), cwd=VERIF)
+    except subprocess.TimeoutExpired:
+      ck.label('asan-probe:%s:inconclusive(timeout)' % which)
+      continue
+    out = p.stdout + p.stderr
+    if 'PROBE-CLEAN' in p.stdout and p.returncode == 0:
+      ck.label('asan-probe:%s:clean' % which)
+    elif 'AddressSanitizer' in out and pat in out:
+      ck.label('asan-probe:%s:known-finding' % which)
+      first = [l for l in out.split('\n') if 'ERROR: AddressSanitizer' in l][:1]
+      ck.violation('%s (%s)' % (what, first[0].strip() if first else 'ASan report'), dict(check='asan-probe', which=which,
+                   report=out[-3000:]), bucket='asan-' + which, fingerprint=fp)
+    elif 'AddressSanitizer' in out:
+      ck.violation('ASan report in the %s probe that does not match the known finding' % which,
+                   dict(check='asan-probe', which=which, report=out[-3000:]), bucket='asan-other-' + which)
+    else:
+      ck.label('asan-probe:%s:inconclusive(rc=%d)' % (which, p.returncode))
+      ck.extra['asan_probe_' + which] = out[-600:]
 
 
 # ------------------------------------------------------------------------------------------------ the checks
@@ -968,6 +1060,8 @@ def main(ck):
   ck.run_hypothesis(lambda c: check_fuse_probe(ck, lib, c), fuse_probe_case(), ck.budget(12, 100), name='fuse-probe',
                     shrink=False)
   ck.run_hypothesis(lambda c: check_setconst(ck, lib, c), setconst_case(), ck.budget(80, 1500), name='setconst')
+  if not ck.quick:
+    asan_probe(ck)
   ck.extra['tolerances'] = dict(TOL_DIRECT=TOL_DIRECT, TOL_DERIVED=TOL_DERIVED, TOL_F32=TOL_F32, TRAJ_ATOL=TRAJ_ATOL,
                                 TRAJ_K=TRAJ_K, ILLCOND=ILLCOND)
   ck.extra['max_observed_error'] = {k: dict(err=v[0], field=v[1]) for k, v in STATS.maxerr.items()}
